@@ -25,9 +25,10 @@ import (
 	"golang.org/x/tools/go/loader"
 )
 
-// removeUnreadableDerived removes the generated file of a package, when its package clause or imports cannot be parsed,
-// for example when it is the remnant of an interrupted run.
-// go/build refuses to load a package that contains such a file and the file is about to be regenerated anyway.
+// removeUnreadableDerived removes the generated file of a package, when it cannot be parsed or does not end with a newline,
+// which means that it is the remnant of an interrupted run.
+// go/build refuses to load a package that contains a file with an unreadable header,
+// or a package clause that was cut inside the package name, and the file is about to be regenerated anyway.
 func removeUnreadableDerived(paths []string) {
 	cwd, err := os.Getwd()
 	if err != nil {
@@ -43,7 +44,8 @@ func removeUnreadableDerived(paths []string) {
 		if err != nil {
 			continue
 		}
-		if _, err := parser.ParseFile(token.NewFileSet(), filename, src, parser.ImportsOnly); err != nil {
+		_, err = parser.ParseFile(token.NewFileSet(), filename, src, 0)
+		if err != nil || len(src) == 0 || src[len(src)-1] != '\n' {
 			os.Remove(filename)
 		}
 	}
